@@ -328,7 +328,9 @@ func (mgr *GCMgr) gc(bkt *Bucket, startChunkID, endChunkID int, merge bool) {
 				continue
 			}
 
-			if recsize+dstchunk.writingHead > uint32(Conf.DataFileMax) {
+			// a file that is rewritten in place only shrinks: never roll over out of it while
+			// it is still being scanned (it may be larger than a DataFileMax lowered since)
+			if recsize+dstchunk.writingHead > uint32(Conf.DataFileMax) && gc.Dst != gc.Src {
 				dstchunk.endGCWriting()
 				bkt.hints.trydump(gc.Dst, true)
 
